@@ -327,7 +327,10 @@ func init() {
 					}
 				case 1:
 					cs.Part = "equiv"
-					cs.Img = images[1+c.PickFree(2, "img")]
+					// the third picture is large enough (4x3 macroblocks, flat and noisy
+					// blocks side by side) for segment-map and multi-segment effects
+					eqImgs := []c02Img{images[1], images[2], {64, 48, "regions4", "opaque"}, {96, 80, "patchwork", "opaque"}}
+					cs.Img = eqImgs[c.PickFree(len(eqImgs), "img")]
 					cs.Equiv = c20Equivs[c.PickFree(len(c20Equivs), "equiv")].name
 					// context: one other field away from default (cost 2 => at most one)
 					for _, f := range c02Fields {
